@@ -4,5 +4,8 @@ package bbolt
 
 // fdatasync flushes written data to a file descriptor.
 func fdatasync(db *DB) error {
+	if err := verifIO(db, verifFdatasync, 0, nil); err != nil {
+		return err
+	}
 	return db.file.Sync()
 }
